@@ -115,6 +115,9 @@ type run struct {
 	epochLo      int64 // first sequence appended since the cursor last moved backwards
 	unsynced     bool  // a reset happened and neither a Put nor NewQueue since
 	idxMaybeDead bool  // GC ran in that state: the index page the queue holds may be gone
+
+	pageSizes []int64 // page size argument of the successive NewQueue calls of this case (nil: always 0)
+	opens     int
 }
 
 func (r *run) cleanup() {
@@ -139,7 +142,16 @@ func (r *run) curStr() string {
 
 func (r *run) open(dir string) error {
 	r.ctl.root = dir
-	q, err := queue.NewQueue(dir, 0)
+	// the configured data page size (storage option wal.page-size, [128MB,1GB]): NewQueue maps the
+	// data pages with it, everything else uses the constant. Cases that set pageSizes open / reopen /
+	// restart with a DIFFERENT size each time; the model has no such parameter (nothing may depend on it).
+	ps := int64(0)
+	if len(r.pageSizes) > 0 {
+		ps = r.pageSizes[r.opens%len(r.pageSizes)]
+		r.opens++
+		r.c.Branch(fmt.Sprintf("newqueue-pagesize-%dMB", ps>>20))
+	}
+	q, err := queue.NewQueue(dir, ps)
 	if err != nil {
 		return err
 	}
@@ -1136,6 +1148,8 @@ func (r *run) seqCase(rng *rand.Rand) {
 // a message of exactly one page, one byte more than a page, crash images around a roll-over.
 func (r *run) bigCase(rng *rand.Rand) {
 	r.c.Branch("case-rollover")
+	// wal.page-size configured above the default and changed at every restart (raised, removed, lowered)
+	r.pageSizes = []int64{256 << 20, 0, 192 << 20, 128 << 20, 512 << 20}
 	r.opNew()
 	a := 40*1024*1024 + rng.Intn(20*1024*1024)
 	r.opPut(gen(rng.Intn(1000), a))
